@@ -336,7 +336,7 @@ def read_jsonl(paths):
     for p in paths:
         with open(p, errors="replace") as fh:
             for line in fh:
-                if not line or line[0] != "{":
+                if not line or line[0] not in "{[":
                     continue
                 try:
                     yield json.loads(line)
